@@ -111,6 +111,16 @@ func (m c14mon) Check(s *sim.Sim, st *sim.Step) []*sim.Violation {
 				m.stats.Count("login-ok")
 			}
 		}
+		okMsg := false
+		if v, put := sim.SessPut(rec, "flash_success"); put && strings.HasPrefix(v, "Logged in successfully") {
+			okMsg = true
+		}
+		if msg, _ := rec.JSON["message"].(string); strings.HasPrefix(msg, "Logged in successfully") {
+			okMsg = true
+		}
+		if okMsg && rec.SessOut["uid"] != want && rec.FaultsFired == 0 {
+			vs = append(vs, vio("C14", "successful-callback-left-other-identity-in-session", "the callback for (%s,%q) reported success but the session names %q (session before: uid=%q halfauth=%q)", prov, rep.UID, rec.SessOut["uid"], rec.SessIn["uid"], rec.SessIn["halfauth"]))
+		}
 		if u := rec.After.Users[want]; u == nil {
 			if sim.SessPutAny(rec, "uid", want) {
 				vs = append(vs, vio("C14", "logged-in-user-not-stored", "session names %q but no such user was stored", want))
@@ -208,6 +218,24 @@ func c14Codec(c *RunCtx, r *rand.Rand, n int) {
 	c.Stats.Sig(fmt.Sprintf("codec/%d-pairs", n))
 }
 
+var c14Templates = []sim.Template{
+	{Name: "callback-in-half-authed-session", F: func(s *sim.Sim) []*sim.Action {
+		if !s.RememberActive() {
+			return nil
+		}
+		p := s.Cfg.Providers[s.R.Intn(len(s.Cfg.Providers))]
+		cb := func(b, ident int) *sim.Action {
+			a := act("oauth_cb", b, ident, "own", "provider", p)
+			a.Cls2 = "validcode"
+			return a
+		}
+		// identity 0 logs in and asks to be remembered; the session is lost; the cookie restores a
+		// half-authed session; then identity 1 comes back from the provider in that session
+		return []*sim.Action{act("oauth_start", 0, -9, "", "provider", p, "rm", "true"), cb(0, 0), act("dropsid", 0, -9, ""), act("visit", 0, -9, "", "route", "/public"),
+			act("oauth_start", 0, -9, "", "provider", p), cb(0, 1), act("visit", 0, -9, "", "route", "/protected/full")}
+	}},
+}
+
 var c14Profile = &sim.Profile{
 	W: map[string]int{"oauth_start": 30, "oauth_cb": 45, "logout": 5, "dropsid": 3, "visit": 5, "login": 4, "raw": 2, "advance": 1, "steal": 2},
 	Cls: map[string]map[string]int{
@@ -215,7 +243,7 @@ var c14Profile = &sim.Profile{
 		"oauth_cb2": {"validcode": 65, "badcode": 12, "othercode": 8, "error": 15},
 		"login":     {"ok": 80, "wrong": 20},
 	},
-	MinLen: 25, MaxLen: 60, Extra: c14Extra, ExtraProb: 0.12,
+	MinLen: 25, MaxLen: 60, Extra: c14Extra, ExtraProb: 0.12, Templates: c14Templates, TplProb: 0.3, NoiseProb: 0.1,
 }
 
 func init() {
